@@ -11,6 +11,7 @@ f,old,new=sys.argv[1:4]
 s=open(f).read()
 n=len(re.findall(old,s))
 assert n==1, "pattern matches %d times"%n
+new=new.replace('\\n','\n').replace('\\t','\t')
 open(f,'w').write(re.sub(old,lambda m:new,s))
 PY
 [ $? -eq 0 ] || { git checkout -- .; exit 3; }
